@@ -68,7 +68,36 @@ def run(tier, replay=None):
         run.states += r.distinct
         run.transitions += r.generated
     run.traces += nlive
-    run.evaluations = len(cases) + summ["scenarios"] + nlive
+    # --- the loop at the grain of its system calls (ReloaderLive.tla): the editor acts between the two looks that
+    # init_file and run_once take at the file.  Liveness under fairness of the loop's steps (a valid content that stays
+    # is applied eventually, a bad one never stops the loop), two negative controls of it (an editor that reproduces the
+    # remembered modification time; init_file reading the text before it takes the time - F17), and every behaviour of
+    # a bounded instance replayed through init_file and the real refresh thread in a child process each, the edits
+    # made at the guarded sync points between the looks
+    res = C.run_tlc("MC_ReloaderLive", "MC_ReloaderLive_live.cfg" if tier == "quick" else "MC_ReloaderLive_live4.cfg", "c15_rlive",
+                    workers=4, timeout=1200, coverage=False)
+    if res.inv_violated:
+        run.mismatch({"kind": "model", "invariant": res.inv_violated, "part": "reloader races"}, {"tlc": res.error_text[:4000]})
+        return run.finish()
+    run.add_tlc(res)
+    for cfg in ("MC_ReloaderLive_forge.cfg", "MC_ReloaderLive_readfirst.cfg"):
+        neg = C.run_tlc("MC_ReloaderLive", cfg, "c15_rlive_neg", workers=2, timeout=600, coverage=False)
+        if neg.inv_violated != "Converges":
+            raise C.ToolError("negative control: %s does not refute Converges (%r)" % (cfg, neg.inv_violated))
+    racecfg = "MC_ReloaderLive_quick.cfg" if tier == "quick" else "MC_ReloaderLive_thorough.cfg"
+    # the quick tier replays every behaviour in which an edit lands between two looks, and every fifth of the others
+    keep = None
+    if tier == "quick":
+        keep = lambda c: any(o.get("mid") for o in c["ops"]) or (len(json.dumps(c["ops"])) * 2654435761 >> 7) % 5 == 0
+    rcases, rmism, _, _ = C.emit_and_replay(run, "MC_ReloaderLive", racecfg, "c15_race_" + tier, ["reloadrace"], timeout=2400, workers=4,
+                                            keep=keep)
+    for m in rmism:
+        run.mismatch({"kind": m["mismatch"]["what"], "part": "reloader races"}, m)
+    raced = sum(1 for c in rcases if any(o.get("mid") for o in c["ops"]))
+    if not run.mismatches and raced < 200:
+        raise C.ToolError("vacuous run: %d behaviours with an edit between two looks" % raced)
+    run.extra["behaviours_with_an_edit_between_two_looks"] = raced
+    run.evaluations = len(cases) + summ["scenarios"] + nlive + len(rcases)
     polls = lambda c: [o for o in c["ops"] if o["op"] == "poll"]
     run.nontrivial = sum(1 for c in cases if any(o["ret"] in ("err", "stop", "rate") for o in polls(c)))
     if not run.mismatches and run.nontrivial < 100:
